@@ -17,6 +17,8 @@ from symx.runner import Job, run_property
 from nanoemoji import colors as C
 from nanoemoji.colors import Color
 from nanoemoji import paint as P
+from picosvg.geometric_types import Point
+from picosvg.svg_transform import Affine2D
 
 BLACK = (0, 0, 0, 1, None)
 
@@ -528,6 +530,72 @@ def job_fromstring(jc):
                      "fromstring: rgb/index parsed, caller's alpha (shape opacity) preserved", inp, replay_fromstring, key="C15:fromstring:alpha")
 
 
+# ---- ColorGlyph.colors(): every colour any node of the tree uses (the palette is built from it)
+
+
+def _colors_tree(v):
+    """three layers: solid glyph; transform > glyph with a 2-stop gradient; group-opacity composite (black backdrop with alpha)"""
+    c = lambda n, g, b: Color(v(n + "r"), g, b, v(n + "a"))
+    lin = P.PaintLinearGradient(stops=(P.ColorStop(0.0, c("s0", 1, 1)), P.ColorStop(1.0, c("s1", 2, 2))), p0=Point(0, 0), p1=Point(10, 0), p2=Point(0, 10))
+    return (
+        P.PaintGlyph(glyph="g0", paint=P.PaintSolid(c("f", 3, 3))),
+        P.PaintTransform(transform=(1, 0, 0, 1, 5, 5), paint=P.PaintGlyph(glyph="g1", paint=lin)),
+        P.PaintComposite(mode=P.CompositeMode.SRC_IN, source=P.PaintColrLayers((P.PaintGlyph(glyph="g2", paint=P.PaintSolid(c("h", 4, 4))),)),
+                         backdrop=P.PaintSolid(Color(0, 0, 0, v("ga")))),
+    )
+
+
+def _colors_want(v):
+    c = lambda n, g, b: (v(n + "r"), g, b, v(n + "a"))
+    return [c("f", 3, 3), c("s0", 1, 1), c("s1", 2, 2), c("h", 4, 4), (0, 0, 0, v("ga"))]
+
+
+_COLORS_NAMES = ["fr", "fa", "s0r", "s0a", "s1r", "s1a", "hr", "ha", "ga"]
+
+
+def replay_glyph_colors(inp):
+    from nanoemoji.color_glyph import ColorGlyph
+
+    v = lambda n: (int(inp[n]) if n.endswith("r") else float(inp[n]))
+    cg = ColorGlyph(None, "", "", "g", 2, (65,), _colors_tree(v), None, Affine2D.identity(), None)
+    try:
+        got = {tuple(c[:4]) for c in cg.colors()}
+    except Exception as e:
+        return {"raised": repr(e)}
+    want = {tuple(w) for w in _colors_want(v)}
+    if got != want:
+        return {"colors() misses": sorted(want - got), "colors() adds": sorted(got - want)}
+    return None
+
+
+def job_glyph_colors(jc):
+    from nanoemoji.color_glyph import ColorGlyph
+
+    jc.encode(ColorGlyph.colors, ColorGlyph.traverse)
+    inp = {n: core.SymNum(z3.Int(n) if n.endswith("r") else z3.Real(n)) for n in _COLORS_NAMES}
+
+    def body():
+        v = lambda n: core.integer(n, 0, 255) if n.endswith("r") else core.real(n, 0, 1)
+        cg = ColorGlyph(None, "", "", "g", 2, (65,), _colors_tree(v), None, Affine2D.identity(), None)
+        return list(cg.colors())
+
+    with _ConstHash():
+        results = jc.explore(body, max_paths=3000)
+    V = lambda n: (z3.Int(n) if n.endswith("r") else z3.Real(n))
+    want = _colors_want(V)
+    for r in results:
+        if not jc.no_exception(r, inp, replay_glyph_colors, "C15:glyph-colors:raises"):
+            continue
+        got = r.value
+        jc.reach(r, "ok")
+        same = lambda c, w: z3.And(core.as_term(c.red) == w[0], z3.BoolVal(c.green == w[1] and c.blue == w[2]) if not isinstance(c.green, core.SymNum) else core.as_term(c.green) == w[1], core.as_term(c.alpha) == w[3])
+        conj = [z3.Or(*[same(c, w) for c in got]) if got else z3.BoolVal(False) for w in want]  # every colour of the tree is reported
+        conj += [z3.Or(*[same(c, w) for w in want]) for c in got]  # and nothing else
+        jc.prove(r, z3.And(*conj), "ColorGlyph.colors() is exactly the set of colours of the paint tree (fills, gradient stops, group-opacity backdrop)", inp, replay_glyph_colors, key="C15:glyph-colors")
+    jc.expect_reached("ok")
+
+
+
 def gb_for(n, variant):
     if variant == 2:
         return tuple((None, None) for _ in range(n))
@@ -573,7 +641,8 @@ def jobs(tier):
 
     from harness import C01
 
-    js.append(Job("ufo_colr_layers", C01.job_ufo_layers))  # palette indices written into the paints, currentColor -> 0xFFFF (fills and stops)
+    js.append(Job("ufo_colr_layers", C01.job_ufo_layers))
+    js.append(Job("glyph_colors", job_glyph_colors))  # palette indices written into the paints, currentColor -> 0xFFFF (fills and stops)
     for name in ("gradient stops with palette variables", "palette variable whose default has an alpha channel + shape opacity", "currentColor and palette variables"):
         js.append(Job(f"source[{name}|user identity]", C01_source.job_source, source=name, user="identity"))
     return js
